@@ -8,6 +8,7 @@ import PMV.Proofs.LayoutTable
 import PMV.Proofs.LayoutPlain
 import PMV.Proofs.LayoutTidy
 import PMV.Proofs.LayoutIndent
+import PMV.Proofs.LayoutBal4
 /-
   C02 — Printed source re-parses to exactly the same syntax tree.
   Proved here, for every well-formed expression tree of the modelled AST (unbounded depth):
@@ -96,6 +97,14 @@ theorem layout_indentation (m : Module) :
     (Spec.Layout.indRun (0, none) (Spec.Layout.emitModule Generated.precTable Generated.stmtTable m)).isSome = true :=
   Spec.Layout.module_indent _ _ m
 
+/-- T02.4d (brackets): everything the expression printer emits is bracket-balanced (`flat_bal`, mutual induction over the
+    expression printer, then patterns, headers and simple statements), so in the specified layout of every module each line
+    break and each `;` is at bracket depth 0 — where the tokenizer reads it as NEWLINE / statement separator rather than
+    ignoring it — and all brackets are closed at the end.  No side condition. -/
+theorem layout_brackets (m : Module) :
+    Spec.Layout.depthL 0 (Spec.Layout.emitModule Generated.precTable Generated.stmtTable m) = some 0 :=
+  Spec.Layout.module_brackets _ _ m
+
 /-- T02.5 (characters): when moreover no token text ends in a character that `newline` strips or is empty (`textOK`),
     the printed text is the concatenation of the characters of a list of layout tokens (a token with the space the spacing
     rule puts before it; a line break followed by `depth` tabs; a `;`) which, spacing forgotten, is the specified layout. -/
@@ -136,6 +145,8 @@ def layoutWitness : Module := ⟨[
 
 example : Spec.Layout.okL Generated.precTable Generated.stmtTable layoutWitness.body = true := by decide +kernel
 example : Spec.Layout.plainL Generated.precTable layoutWitness.body = true := by decide +kernel
+-- nor is the bracket condition: a line break inside an open bracket is rejected
+example : Spec.Layout.depthL 0 [.t (.delim "("), .nl 0, .t (.delim ")")] = none := by decide
 -- the discipline is not vacuous: a deeper line without a colon before it is rejected
 example : Spec.Layout.indRun (0, none) [.t (.ident "a"), .nl 1, .t (.ident "b")] = none := by decide
 example : (moduleToks Generated.precTable Generated.stmtTable layoutWitness).all Spec.Layout.textOK = true := by decide +kernel
